@@ -37,7 +37,7 @@ func runMemKind(v *Vec, kind string) (o kindOutcome) {
 	var dm z80.DumbMemory
 	var mm z80.MapMemory
 	switch kind {
-	case "dm":
+	case "dm", "dmswap":
 		dm = make(z80.DumbMemory, 65536)
 		for a := 0; a < 65536; a++ {
 			dm[a] = init.peek(uint16(a))
@@ -57,6 +57,14 @@ func runMemKind(v *Vec, kind string) (o kindOutcome) {
 			}
 		}
 		cpu.Step()
+		if kind == "dmswap" {
+			// the host replaces the memory OBJECT between two Steps by another one holding the same bytes (bank switching, reloading):
+			// nothing the CPU remembered about the old object may matter
+			nd := make(z80.DumbMemory, 65536)
+			copy(nd, dm)
+			cpu.Memory = nd
+			dm = nd
+		}
 	}
 	full := resultStr(v.ID, cpu, w)
 	if i := strings.Index(full, " MV "); i >= 0 {
@@ -77,7 +85,7 @@ func runMemKind(v *Vec, kind string) (o kindOutcome) {
 	}
 	var ds []string
 	switch kind {
-	case "dm":
+	case "dm", "dmswap":
 		for a := 0; a < 65536; a++ {
 			if dm[a] != init.peek(uint16(a)) {
 				ds = append(ds, fmt.Sprintf("%04x=%02x", a, dm[a]))
@@ -134,7 +142,11 @@ func cmdMemKinds() {
 			} else {
 				base := runMemKind(v, "rec")
 				res := v.ID + " same"
-				for _, k := range []string{"dm", "mm"} {
+				kinds := []string{"dm", "mm"}
+				if v.N > 1 {
+					kinds = append(kinds, "dmswap")
+				}
+				for _, k := range kinds {
 					o := runMemKind(v, k)
 					switch {
 					case o.regs != base.regs:
